@@ -933,3 +933,156 @@ def replay_flatten_driver(rp):
                 probs.append("an instance outside the top hierarchy was changed")
         probs += wellformed.c01_problems(wellformed.closure([netlist] + list(objs.values())))[:2]
         return bool(probs), "; ".join(probs[:3]) or "flatten satisfied the statement on this netlist"
+
+
+def bring_to_top_job(tier, timeout_ms=300000):
+    """flatten._bring_to_top(e, add_to_name, top_definition) -- the naming/moving step of flatten -- for an instance and
+    for a cable of a cell A, with the element's NAME and the path prefix BOTH symbolic over string domains chosen so that
+    names contain, start with and equal prefixes ('u', 'u/v', 'u_x' under prefix 'u' or 'u/v'): afterwards the element
+    is called prefix + '/' + name (its own name under the empty prefix) -- for EVERY pair of the domains, decided by z3
+    over the tabulated string operations of the real code --, sits in the top definition and no longer in A; an element
+    that carries an EDIF identifier gets a fresh one; nothing else changes; well-formed; no exception."""
+    import spydrnet.flatten as fl
+    t0 = time.time()
+    M.SOLVER_CORE = "euf"
+    names = ["u", "v", "u/v", "u_x", "u/", "uu"] + (["u/v/w", "/u", "U"] if tier == "thorough" else [])
+    prefixes = ["", "u", "u/v", "v"] + (["u/", "uu", "U"] if tier == "thorough" else [])
+    others = ["TOP", "A", "n", "k", "id0"]
+    live = dict(Netlist=0, Library=0, Definition=2, Port=0, Cable=2, Wire=0, Instance=2, InnerPin=0, OuterPin=0)
+    out = []
+    for kind in ("Instance", "Cable"):
+        name = "C09/flatten._bring_to_top{%s}" % kind.lower()
+        u = Universe(live, {}, 3, keys=(".NAME", "EDIF.identifier"), atoms=tuple(names + prefixes[1:] + others))
+        # definition 0 = top {instance 1 'k', cable 1 'n'}; definition 1 = A {instance 0, cable 0}: the elements to move
+        shape = {("Definition", 0, "_children"): [1], ("Definition", 0, "_cables"): [1],
+                 ("Definition", 1, "_children"): [0], ("Definition", 1, "_cables"): [0]}
+        pre = Heap.symbolic(u).apply_shape(shape)
+        at = ATOMS.intern
+        kn, ke = 0, 1
+        for c, i, nm in (("Definition", 0, "TOP"), ("Definition", 1, "A"), ("Instance", 1, "k"), ("Cable", 1, "n")):
+            pre.data[c][i][kn] = (True, at(nm))
+            pre.data[c][i][ke] = (False, 0)
+        other = "Cable" if kind == "Instance" else "Instance"
+        pre.data[other][0][kn] = (True, at("v"))
+        pre.data[other][0][ke] = (False, 0)
+        nv = z3.Int("elem_name")
+        pv = z3.Int("prefix")
+        pre.data[kind][0][kn] = (True, nv)
+        has_id = pre.data[kind][0][ke][0]
+        pre.data[kind][0][ke] = (has_id, at("id0"))
+        heap = pre.copy()
+        ctx = Ctx(heap, M.REAL)
+        M.listeners_none(ctx)
+        ctx.globals_over[("spydrnet.flatten", "mod_name_uid")] = 0
+        ctx.globals_over[("spydrnet.flatten", "unique_number")] = 0
+        fr = Frame(None, True, {})
+        from vf.e1.sym import SAtom
+        A = pre.type_constraints() + spec.inv_all(pre)
+        A += [OR(*[EQ(nv, at(n)) for n in names]), OR(*[EQ(pv, at(p)) for p in prefixes])]
+        A = [B(a) for a in A if a is not True]
+        ctx.path_assumptions = list(A)
+        ctx.prune_infeasible_raises = True
+        e = Ref(u.gid(kind, 0), (kind,))
+        top = Ref(u.gid("Definition", 0), ("Definition",))
+        try:
+            call_function(ctx, fr, fl._bring_to_top, [e, SAtom(pv, [at(p) for p in prefixes]), top])
+        except Unsupported as ex:
+            out.append(result(name, INCONCLUSIVE, "E1/symheap", detail="Unsupported: %s" % ex, wall_s=time.time() - t0))
+            continue
+        post = heap
+        goals = {}
+        pn = post.data[kind][0][kn]
+        goals["named-prefix-slash-name-for-every-name-and-prefix"] = [pn[0]] + [
+            IMPLIES(AND(EQ(nv, at(n)), EQ(pv, at(p))), EQ(pn[1], at(p + "/" + n if p != "" else n)))
+            for n in names for p in prefixes]
+        fld, pfld = ("_children", "_parent") if kind == "Instance" else ("_cables", "_definition")
+        tl, tel = post.ls[("Definition", fld)][0]
+        al, ael = post.ls[("Definition", fld)][1]
+        g = u.gid(kind, 0)
+        goals["moved-into-the-top-definition"] = [
+            EQ(post.sc[(kind, pfld)][0], u.gid("Definition", 0)), EQ(tl, 2), EQ(al, 0),
+            OR(*[AND(LT(k, tl), EQ(tel[k], g)) for k in range(len(tel))]),
+            OR(*[AND(LT(k, tl), EQ(tel[k], u.gid(kind, 1))) for k in range(len(tel))])]
+        pid = post.data[kind][0][ke]
+        new_id = ("instance_" if kind == "Instance" else "cable_") + "sdn_flat_0"
+        goals["identifier-refreshed-iff-present-and-nothing-else-changes"] = [
+            EQ(pid[0], has_id), IMPLIES(has_id, EQ(pid[1], at(new_id))),
+            EQ(post.data[kind][1][kn][1], pre.data[kind][1][kn][1]), EQ(post.data[other][0][kn][1], at("v")),
+            EQ(post.data[other][1][kn][1], pre.data[other][1][kn][1]),
+            EQ(post.sc[(other, "_parent" if other == "Instance" else "_definition")][0], u.gid("Definition", 1)),
+            EQ(post.data["Definition"][0][kn][1], at("TOP")), EQ(post.data["Definition"][1][kn][1], at("A"))]
+        goals["well-formed-afterwards"] = [c for gg, cs in spec.inv_groups(post).items() for c in cs]
+        funcs = sorted(fn_ident(f) for f in ctx.funcs_seen)
+        bounds = dict(u.describe(), shape={"%s/%d/%s" % k: v for k, v in shape.items()}, names=names, prefixes=prefixes,
+                      note="name of the moved element and the path prefix symbolic over these domains; EDIF identifier "
+                           "present or absent (symbolic)", solver="z3 %s" % z3.get_version_string())
+        ok = [B(NOT(ctx.bound)), B(NOT(ctx.exc))]
+        tw = {"pre_sat": M.check(A, True, 60000)[0], "returns": M.check(A, AND(NOT(ctx.exc), NOT(ctx.bound)), 120000)[0],
+              "name-starts-with-prefix": M.check(A + ok, AND(EQ(nv, at("u/v")), EQ(pv, at("u")), has_id), 120000)[0]}
+        if any(v != "sat" for v in tw.values()):
+            out.append(result(name, VACUOUS, "E1/symheap", twins=tw, bounds=bounds, detail="reachability twin failed: %s %s" % (
+                tw, sorted(set(ctx.bound_why))[:3])))
+            continue
+        for gname, cs in list(goals.items()) + [("never-raises", None)]:
+            oname = name + "/" + gname
+            if cs is None:
+                st, dt, mdl = M.check(A + [B(NOT(ctx.bound))], ctx.exc, timeout_ms)
+            else:
+                st, dt, mdl = M.check(A + ok, NOT(AND(*cs)), timeout_ms)
+            if st == "unsat":
+                out.append(result(oname, DISCHARGED, "E1/symheap", queries=1, solver_s=dt, twins=tw, bounds=bounds,
+                                  functions=funcs, detail="unsat", wall_s=time.time() - t0, paths=1))
+            elif st != "sat":
+                out.append(result(oname, INCONCLUSIVE, "E1/symheap", detail="solver: %s" % st, bounds=bounds))
+            else:
+                state = replay.heap_to_state(pre, mdl)
+                rp = {"engine": "E1", "property": "C09", "obligation": oname, "kind": "bring_to_top", "state": state,
+                      "element": g, "top": u.gid("Definition", 0), "prefix": ATOMS.vals[replay.mval(mdl, pv)]}
+                try:
+                    viol, txt = replay_bring_to_top(rp)
+                except Exception:
+                    viol, txt = False, "replay crashed: " + traceback.format_exc()[-400:]
+                out.append(result(oname, VIOLATED if viol else ERROR, "E1/symheap", queries=1, solver_s=dt, twins=tw,
+                                  bounds=bounds, functions=funcs, replay=rp if viol else None,
+                                  detail=txt if viol else "counterexample did not reproduce: " + txt,
+                                  wall_s=time.time() - t0))
+    return out
+
+
+def replay_bring_to_top(rp):
+    """real _bring_to_top on the real objects; plain-python oracle"""
+    import spydrnet as sdn
+    import spydrnet.flatten as fl
+    from vf.e1 import wellformed
+    with replay.listener_config("none"):
+        objs = replay.build(rp["state"])
+        built, _ = replay.abstract(objs)
+        diffs = replay.states_equal(rp["state"], built)
+        if diffs:
+            return False, "built state differs from the model: " + "; ".join(diffs[:3])
+        e, top, prefix = objs[rp["element"]], objs[rp["top"]], rp["prefix"]
+        old_name, had_id = e.name, "EDIF.identifier" in e
+        old_home = e.parent if isinstance(e, sdn.Instance) else e.definition
+        others = {id(o): (o.name if hasattr(o, "name") else None) for o in objs.values() if o is not e}
+        fl.mod_name_uid = 0
+        try:
+            fl._bring_to_top(e, prefix, top)
+        except Exception as ex:
+            return True, "_bring_to_top raised %s: %s" % (type(ex).__name__, str(ex)[:80])
+        probs = []
+        want = prefix + "/" + old_name if prefix != "" else old_name
+        if e.name != want:
+            probs.append("element %r moved under prefix %r is called %r, not %r" % (old_name, prefix, e.name, want))
+        home = e.parent if isinstance(e, sdn.Instance) else e.definition
+        members = top.children if isinstance(e, sdn.Instance) else top.cables
+        if home is not top or not any(m is e for m in members):
+            probs.append("the element is not in the top definition afterwards")
+        if any(m is e for m in (old_home.children if isinstance(e, sdn.Instance) else old_home.cables)):
+            probs.append("the element is still listed in its old cell")
+        if ("EDIF.identifier" in e) != had_id:
+            probs.append("EDIF identifier appeared or vanished")
+        for o in objs.values():
+            if o is not e and hasattr(o, "name") and others[id(o)] != o.name:
+                probs.append("another element was renamed")
+        probs += wellformed.c01_problems(wellformed.closure(list(objs.values())))
+        return bool(probs), "_bring_to_top: %s" % sorted(set(probs))[:4]
